@@ -177,7 +177,8 @@ func heldMaps(which string) func(r *engine.Rec) {
 				}
 			}
 		}
-		// a Map and a Catalog with the same associations under one interface type are collections of different kinds
+		// a Map against a Catalog with the same associations under one interface type: whatever the verdict on two
+		// collections of different kinds is, it is the same on every call, mirrored when swapped, and CompareValues agrees with RankValues
 		for _, a := range fam {
 			c := heldCase{Holder: "[]Sequential[AssociationLike]: Map against Catalog", A: a.name, B: a.name}
 			if !r.Wanted(c) {
@@ -208,8 +209,6 @@ func heldMaps(which string) func(r *engine.Rec) {
 					bad = fmt.Sprintf("RankValues is not a mirror image\x00%v and %v", rk, back)
 				case which == "C08" && eq != (rk == age.EqualRank):
 					bad = fmt.Sprintf("CompareValues disagrees with RankValues\x00%v, %v", eq, rk)
-				case which == "C08" && eq && len(a.kv) > 0:
-					bad = "collections of different kinds compare equal\x00"
 				}
 			}
 			if bad == "" && len(seen) > 1 && len(a.kv) > 1 {
